@@ -20,7 +20,7 @@ Slack == 1               \* tolerance (ticks) for bounded-liveness clauses
 MsgEvents == {"cb_b", "cb_e", "pre_b", "pre_e", "onerr_b", "onerr_e", "post_b",
               "post_e", "postsave_b", "postsave_e", "ack", "ack_e", "dep_open",
               "dep_opened", "dep_close", "start", "end", "save_b", "save_e"}
-ErrOutcomes == {"exc", "base", "nores", "cancel", "depfail"}
+ErrOutcomes == {"exc", "base", "nores", "cancel", "depfail", "cerr"}
 Teardown == {"gen", "agen", "cm", "acm"}
 
 Max2(a, b) == IF a >= b THEN a ELSE b
@@ -156,7 +156,7 @@ PerMsg(c, o, m, L, ev) ==
       at == AckT(c)
       ended == r.cbE > 0
       endedOk == ended /\ r.cbOk
-      hooksOk == ~FatalHookRaises(c)
+      hooksOk == ~FatalHookRaises(c) /\ ~MsgC(c, m).ackfail
       opened == OpenedSeq(c, L)
       closed == ClosedSeq(L)
       saveE == r.se
@@ -195,6 +195,7 @@ PerMsg(c, o, m, L, ev) ==
           IN (IF oc = "nores" THEN {"C07_NoResultStored"} ELSE {})
              \cup (IF oc = "ret" /\ ~(~isErr /\ valOk /\ q.s = "none") THEN {"C07_ReturnValue"} ELSE {})
              \cup (IF oc \in {"exc", "base"} /\ ~(isErr /\ errOk /\ q.s = oc) THEN {"C07_Error"} ELSE {})
+             \cup (IF oc = "cerr" /\ ~(isErr /\ errOk /\ q.s = "cancel") THEN {"C07_Error"} ELSE {})
              \cup (IF oc = "cancel" /\ ~(isErr /\ q.s = "timeout") THEN {"C07_TimeoutError"} ELSE {})
              \cup (IF oc = "depfail" /\ ~(isErr /\ q.s = "depfail") THEN {"C07_Error"} ELSE {})
              \cup (IF ~lblOk THEN {"C07_Labels"} ELSE {})
@@ -262,6 +263,11 @@ Global(c, o, ev) ==
         THEN {"C05_NoEarlyReturn"} ELSE {})
   \cup (IF ev.e = "ret" /\ o.nCb < Len(o.taken) THEN {"C05_Drains"} ELSE {})
   \cup (IF ev.e = "ret" /\ \E m \in TakenSet(o) : IsValid(c, m) /\ o.ms[m].cbB = 0 THEN {"C01_Lost"} ELSE {})
+  \cup (IF ev.e = "eot" /\ o.retT < 0 /\ (c.A = 0 \/ o.nRun < c.A)
+           /\ \E m \in TakenSet(o) : IsValid(c, m) /\ o.ms[m].cbB = 0
+        THEN {"C01_Stuck"} ELSE {})
+  \cup (IF ev.e = "eot" /\ o.retT < 0 /\ ShutdownT(o) < 0 /\ o.nRun = 0 /\ o.arrived > Len(o.taken)
+        THEN {"C03_Progress"} ELSE {})
   \cup (IF ev.e = "eot" /\ o.retT < 0 /\ ShutdownT(o) >= 0 /\ AllTakenDone(c, o)
            /\ o.now >= Max2(Max2(ShutdownT(o), o.lastDoneT), o.lastTakeT) + PollPeriod + Slack
         THEN {"C05_Prompt"} ELSE {})
